@@ -9,7 +9,7 @@ from __future__ import annotations
 import ast
 
 from ..cfg import CFG, facts_at
-from ..core import AnalysisError, call_name, calls_in, kwarg, src
+from ..core import AnalysisError, FuncNode, call_name, calls_in, kwarg, src
 
 EXPLANATION = (
     "C26.1 the merge_dicts([...]) sites list their operands from weakest to strongest: Job.get_context [parent context, call-time override] with the "
@@ -17,7 +17,9 @@ EXPLANATION = (
     "[previous override, context, kwargs]; C26.2 merge_dicts returns the last operand when any operand is not a dict and merges recursively per key "
     "otherwise (operand order preserved); C26.3 get_context_value subscripts only behind isinstance(value, dict) in the same iteration, inside "
     "try/except KeyError returning the default; the get_context scheduler task evaluates parent_job.get_context(); C26.4 the override reaches the job "
-    "through the `_context_override` option written by update_context and read by get_context; extend_run passes the context as the parent's override."
+    "through the `_context_override` option written by update_context and read by get_context; extend_run passes the context as the parent's override; "
+    "C26.5 Scheduler._pending_expr is keyed by the parent job object, and JobEnv (the environment under which a call's default arguments are evaluated with the "
+    "new job's context) compares by identity: any __eq__/__hash__ in its MRO must read every field JobEnv.__init__ sets, and no dataclass-generated equality."
 )
 
 
@@ -114,3 +116,43 @@ def run(ctx):
     ea = sm.func("Scheduler._evaluate_apply")
     ok = "JobEnv(parent_job, job.get_context())" in src(ea)
     r4.check(ok, f"{sm.rel}:Scheduler._evaluate_apply:default-args-context", "default arguments (e.g. get_context defaults) are not evaluated under the new job's context", sm.rel, ea.lineno)
+
+    # ---- C26.5 -----------------------------------------------------------
+    r5 = ctx.rule("C26.5", "an evaluation environment with its own context is its own de-duplication scope", floor=3)
+    # (a) the pending-expression table is keyed by the parent job object
+    keyed = [n for n in ast.walk(ea) if isinstance(n, ast.Subscript) and src(n.value) == "self._pending_expr"]
+    if not keyed:
+        raise AnalysisError("_evaluate_apply: self._pending_expr[...] not found", "Scheduler._evaluate_apply")
+    r5.check(all(src(n.slice) == "parent_job" for n in keyed), f"{sm.rel}:Scheduler._evaluate_apply:_pending_expr-key", f"pending expressions are keyed by {sorted({src(n.slice) for n in keyed})}, not by the parent job / environment", sm.rel, ea.lineno)
+    # (b) environment classes (JobEnv and every class it derives from, up to Job) compare by identity, or by everything that distinguishes them
+    jm = sm
+    envc = sm.cls("JobEnv")
+    own_fields = set()
+    for st in envc.body:
+        if isinstance(st, FuncNode) and st.name == "__init__":
+            for n in ast.walk(st):
+                if isinstance(n, ast.Assign):
+                    for tg in n.targets:
+                        if isinstance(tg, ast.Attribute) and isinstance(tg.value, ast.Name) and tg.value.id == "self":
+                            own_fields.add(tg.attr)
+    if not own_fields:
+        raise AnalysisError("JobEnv.__init__ assigns no fields", "JobEnv")
+    for cm, cc in repo.mro(sm, envc):
+        for st in cc.body:
+            if isinstance(st, FuncNode) and st.name in ("__eq__", "__hash__"):
+                read = {n.attr for n in ast.walk(st) if isinstance(n, ast.Attribute) and isinstance(n.value, ast.Name) and n.value.id == "self"}
+                missing = sorted(own_fields - read) if cc is envc else sorted(own_fields)
+                r5.check(
+                    not missing,
+                    f"{cm.rel}:{cc.name}.{st.name}:env-identity",
+                    f"{cc.name}.{st.name} makes a JobEnv compare/hash without {missing}: two environments of the same parent job with different contexts become one key of "
+                    "Scheduler._pending_expr, so equal expressions evaluated in them (e.g. a get_context(...) default argument of two sibling calls) share the first call's value",
+                    cm.rel,
+                    st.lineno,
+                )
+        for st in cc.body:
+            if isinstance(st, ast.Assign) and any(src(t) in ("__eq__", "__hash__") for t in st.targets):
+                r5.violation(f"{cm.rel}:{cc.name}.{src(st.targets[0])}:env-identity", f"{cc.name} aliases {src(st.targets[0])}: environments no longer compare by identity", cm.rel, st.lineno)
+    r5.good(f"{sm.rel}:JobEnv:identity", f"fields {sorted(own_fields)}")
+    decs = [d for cm, cc in repo.mro(sm, envc) for d in cc.decorator_list]
+    r5.check(not any("dataclass" in src(d) or "total_ordering" in src(d) for d in decs), f"{sm.rel}:JobEnv:decorators", "Job/JobEnv is a dataclass (generated __eq__): environments no longer compare by identity", sm.rel, envc.lineno)
